@@ -23,6 +23,78 @@ func withRW(base []core.Cfg) []core.Cfg {
 
 // ---------------------------------------------------------------- C08: clean reopen preserves every result
 
+// c08ManyFiles: one record per segment file (seg=50) and transactions of six records, so that a
+// history of three ops spreads its data over up to 18 files: file ids with two digits, keys
+// overwritten and deleted in much later files, list elements spread over many files.
+func c08ManyFilesProfile(tier string) *eng.Profile {
+	six := func(f func(i int) core.Call) core.Op {
+		var cs []core.Call
+		for i := 0; i < 6; i++ {
+			cs = append(cs, f(i))
+		}
+		return up(cs...)
+	}
+	k := func(i int) string { return string(rune('a' + i)) }
+	ops := []core.Op{
+		six(func(i int) core.Call { return core.Call{F: "Put", B: "b", K: k(i), V: "1"} }),
+		six(func(i int) core.Call { return core.Call{F: "Put", B: "b", K: k(5 - i), V: "2"} }),
+		six(func(i int) core.Call {
+			if i%2 == 0 {
+				return core.Call{F: "Delete", B: "b", K: k(i)}
+			}
+			return core.Call{F: "Put", B: "b", K: k(i), V: "3"}
+		}),
+		six(func(i int) core.Call { return core.Call{F: "RPush", B: "l", K: "k", Vs: []string{k(i)}} }),
+		six(func(i int) core.Call {
+			if i < 3 {
+				return core.Call{F: "LPop", B: "l", K: "k"}
+			}
+			return core.Call{F: "LPush", B: "l", K: "k", Vs: []string{"x" + k(i)}}
+		}),
+		six(func(i int) core.Call { return core.Call{F: "ZAdd", B: "z", K: k(i % 3), X: float64(i), V: k(i)} }),
+		six(func(i int) core.Call { return core.Call{F: "SAdd", B: "s", K: "k", Vs: []string{k(i)}} }),
+		six(func(i int) core.Call { return core.Call{F: "SRem", B: "s", K: "k", Vs: []string{k(i + 3)}} }),
+		{Kind: "reopen"},
+	}
+	var qs []core.Call
+	for i := 0; i < 6; i++ {
+		qs = append(qs, core.Call{F: "Get", B: "b", K: k(i)})
+	}
+	qs = append(qs, core.Call{F: "GetAll", B: "b"}, core.Call{F: "LRange", B: "l", K: "k", I: 0, J: -1}, core.Call{F: "SMembers", B: "s", K: "k"},
+		core.Call{F: "ZRangeByRank", B: "z", I: 1, J: -1}, core.Call{F: "ZMembers", B: "z"})
+	kvOnly := func(o []core.Op) []core.Op { return append(append([]core.Op(nil), o[:3]...), o[len(o)-1]) }
+	p := &eng.Profile{ID: "C08", Name: "many-files",
+		Cfgs: []core.Cfg{{Mode: core.KV, Seg: 50}, {Mode: core.KV, RW: core.M, Start: core.M, Seg: 50}, {Mode: core.K, Seg: 50}, {Mode: core.S, Seg: 50}},
+		Ops: func(cfg core.Cfg) []core.Op {
+			if cfg.Mode == core.KV {
+				return ops
+			}
+			return kvOnly(ops)
+		},
+		Obs: func(cfg core.Cfg) []core.Call {
+			if cfg.Mode == core.KV {
+				return qs
+			}
+			return qs[:7]
+		},
+		Depth: 3, ReopenLeaf: true,
+		Judge: func(c *eng.Ctx) {
+			if c.Last.Panic != "" {
+				c.Add("C20", "panic", callNamesOf(c), c.Last.Panic)
+				return
+			}
+			if m, _ := filepathGlob(c.Inst.Dir + "/*.dat"); len(m) > 10 {
+				c.Feature("more-than-10-segment-files")
+			}
+			eng.JudgeReopen(c, "C09", "C08")
+		},
+	}
+	if tier == "thorough" {
+		p.Depth = 4
+	}
+	return p
+}
+
 func c08Profile(tier string) *eng.Profile {
 	p := &eng.Profile{ID: "C08", Name: "mixed-reopen",
 		Cfgs: []core.Cfg{
@@ -210,16 +282,18 @@ func sortOps(ops []core.Op) {
 func init() {
 	profileBuilders = append(profileBuilders, func(tier string) {
 		Register(c08Profile(tier))
+		Register(c08ManyFilesProfile(tier))
 		for _, p := range c09Profiles(tier) {
 			Register(p)
 		}
 		Register(c13Profile(tier))
 	})
 	Registry["C08"] = func(r *Run) {
-		r.Rule = "every sequence of <=depth ops over the mixed alphabet (KV with TTL/delete, list, set, sorted set; single- and multi-call bodies including calls that are no-ops at commit time); at EVERY explored state the database is closed and reopened with the same options and the full observation (all buckets, all structures) before Close is compared query by query with the observation after Open; reopen is also an op, so histories continue from reopened states"
+		r.Rule = "every sequence of <=depth ops over the mixed alphabet (KV with TTL/delete, list, set, sorted set; single- and multi-call bodies including calls that are no-ops at commit time); plus a many-files profile (one record per segment, six-record transactions: up to 18 files per history, two-digit file ids); at EVERY explored state the database is closed and reopened with the same options and the full observation (all buckets, all structures) before Close is compared query by query with the observation after Open; reopen is also an op, so histories continue from reopened states"
 		r.Assume = []string{"list/set/zset ops only in HintKeyValAndRAMIdxMode (documented as the only mode supporting them)", "an Open error is C09's violation, not C08's"}
-		r.Required = []string{"reopen-at-leaf", "rotated", "multi-call-tx", "commit-time-noop-candidate"}
+		r.Required = []string{"reopen-at-leaf", "rotated", "multi-call-tx", "commit-time-noop-candidate", "more-than-10-segment-files"}
 		r.Explore(c08Profile(r.Tier), "C08")
+		r.Explore(c08ManyFilesProfile(r.Tier), "C08")
 	}
 	Registry["C13"] = func(r *Run) {
 		r.Rule = "from every start state reached by <=2 set-up ops, every two-call (thorough: three-call) write transaction in which the second call reads, pops or modifies what the first call wrote (lists, sets, sorted sets, KV: all mutator x call pairs); per-call results and the state after Commit are compared with the sequential composition of the calls on the reference model"
